@@ -4,7 +4,7 @@ from hypothesis import strategies as st
 
 from .. import gen_hier, mdeck as md, mrender as mr
 from ..runner import ok, violation, case_sig
-from .c05 import run_semantic
+from .c05 import run_semantic, with_options
 from .c06 import periodicity_mismatches
 
 PID = 'C07'
@@ -35,8 +35,9 @@ ASSUMPTIONS = [
 
 
 def strategy(tier):
-    return st.one_of(gen_hier.hex_case(tier), gen_hier.hex_case(tier),
-                     gen_hier.hex_case(tier, periodic=True))
+    return with_options(st.one_of(gen_hier.hex_case(tier),
+                                  gen_hier.hex_case(tier),
+                                  gen_hier.hex_case(tier, periodic=True)))
 
 
 def budget(tier):
